@@ -3,9 +3,9 @@
 CHECK = {
     "id": "C16",
     "level": "exploration",
-    "rule": ("stage hull: case = one seeded input (72% point clouds of 4..1e5 points from ten families: uniform, ball, "
+    "rule": ("stage hull: case = one seeded input (72% point clouds of 4..1e5 points from eleven families: uniform, ball, "
              "cospherical, integer lattice block, tight clusters with exact duplicates, co-circular rings, cube surface, "
-             "nearly flat facet under an apex, simplex lattice, shell+core; 12% of them thin slabs/needles; 28% one Manifold "
+             "nearly flat facet under an apex, simplex lattice, collinear points on cone/cylinder/hyperboloid rulings, shell+core; 12% of them thin slabs/needles; 28% one Manifold "
              "via Hull() or several via Hull(vector)) under identity/scaled/rotated/anisotropic/far-translated placement. "
              "stage degen: case idx%4 selects single point / lattice line / lattice plane / fewer than 4 points, all on "
              "small-integer coordinates so 'spans no volume' is exact. stage mink: case idx%8 enumerates "
@@ -19,26 +19,30 @@ CHECK = {
     "exhaustive": {"quick": False, "thorough": False},
     "stages": [
         {"name": "hull", "variant": "asan", "harness": "c16_hull_minkowski.cpp",
-         "cases": {"quick": 6000, "thorough": 120000},
+         "cases": {"quick": 4000, "thorough": 60000},
          "params": {"mode": "hull", "bigEvery": {"quick": 400, "thorough": 1500},
                     "midEvery": {"quick": 25, "thorough": 25}},
          "case_timeout": 300},
         {"name": "degen", "variant": "asan", "harness": "c16_hull_minkowski.cpp",
-         "cases": {"quick": 800, "thorough": 12000},
+         "cases": {"quick": 400, "thorough": 4000},
          "params": {"mode": "degen"},
          "case_timeout": 120},
         {"name": "mink", "variant": "asan", "harness": "c16_hull_minkowski.cpp",
-         "cases": {"quick": 320, "thorough": 4000},
+         "cases": {"quick": 160, "thorough": 1600},
          "params": {"mode": "mink"},
          "case_timeout": 600},
     ],
     "assumptions": [
         "epsilon of the Hull clauses is QuickHull's own working epsilon, eps_hull = 1e-7 * max|input coordinate| "
         "(src/quickhull.cpp defaultEps(), m_epsilon = epsilon*scale); Manifold::GetEpsilon() of the result (~1e-12*extent) "
-        "is far smaller than what QuickHull is written to guarantee and is not used. Per (face, point) the threshold is "
-        "eps_hull*(1+1e-6) + 32*2^-52*scale*(1+|p-v0|/altitude(face)) (plane rounding, library double vs oracle long double); "
-        "a point is reported only if it is also classified outside the hull by the winding-number oracle and farther "
-        "than that threshold from its surface",
+        "is far smaller than what QuickHull is written to guarantee and is not used. 'Within epsilon' is decided at "
+        "10*eps_hull: QuickHull applies its eps test per face plane at the moment a face is replaced, so a dropped point "
+        "that is at most eps above each of the planes meeting at a vertex/edge of the partial hull can be eps/sin(half "
+        "angle) from the solid; excesses between 1 and 10 eps_hull are counted (advisory_* counters, largest seen 2.3) "
+        "and not reported. Per (face, point) the threshold is 10*eps_hull*(1+1e-6) + 32*2^-52*scale*(1+|p-v0|/altitude(face)) "
+        "(plane rounding, library double vs oracle long double); a point is reported only if it is also classified outside "
+        "the hull by the winding-number oracle and farther than that threshold from its surface; a face whose plane has "
+        "points of the solid itself above it (zero-thickness fold inside a coplanar facet) is set aside and counted",
         "'contains within epsilon' and 'convex' are decided against face planes (the weakest reading: the distance to the "
         "solid is never smaller than the height above a face plane); triangles of exactly zero area have no plane and "
         "are skipped and counted",
